@@ -373,3 +373,63 @@ func VerifC20_OutputMapper() {
 }
 
 var _ = errors.New
+
+// C20, byte half of "make-iso writes exactly the image the server would serve": trees with concrete file sizes
+// (so that every index is concrete and bytes are constants or cells of the uninterpreted file contents): a file of
+// whole sectors / one byte more / one byte less / empty, followed by further files in the root and in a
+// subdirectory. Everything make-iso sent to its output is compared, position by position, with a second image of
+// the same tree read the server's way (Seek + Read of one sector). The four date fields of the volume
+// descriptors hold the construction time and are skipped.
+func VerifC20_MakeISOBytes() {
+	verifrt.NativeUnsupported("os.File, fmt and the OS file system are replaced by engine-injected stubs")
+	verifrt.ConcreteBuffers()
+	verifReset()
+	first := []int64{4096, 2048, 2049, 2047, 0, 6144}[verifrt.Choice("first-file-size", verifrt.Bound("C20.bytes.sizes", 4, 6))]
+	verifOS.tree = &verifstub.Fs{L: &verifstub.Ledger{}, Entries: []*verifstub.Entry{
+		{Path: "/src", File: &verifstub.File{Dir: true, Names: []string{"a.bin", "b.bin", "sub"}}},
+		{Path: "/src/a.bin", File: &verifstub.File{Label: "a", Size: first}},
+		{Path: "/src/b.bin", File: &verifstub.File{Label: "b", Size: 5}},
+		{Path: "/src/sub", File: &verifstub.File{Dir: true, Names: []string{"c.bin"}}},
+		{Path: "/src/sub/c.bin", File: &verifstub.File{Label: "c", Size: 2050}},
+	}}
+	out := &os.File{}
+	h := verifHandle(out)
+	h.keep = true
+	app := &makeISOApp{Directory: "/src", Target: out, PS3Mode: false}
+	err := app.Run()
+	verifrt.Assert(err == nil, "bytes.makeiso-succeeds")
+	ref, rerr := pfs.NewVirtualISO(verifOS.tree, "/src", false)
+	verifrt.Assert(rerr == nil, "bytes.reference-image")
+	if err != nil || rerr != nil {
+		return
+	}
+	var served []byte
+	chunk := make([]byte, 2048)
+	for off := int64(0); ; off += 2048 {
+		if _, serr := ref.Seek(off, io.SeekStart); serr != nil {
+			break
+		}
+		n, rderr := io.ReadFull(ref, chunk)
+		served = append(served, chunk[:n]...)
+		if rderr != nil {
+			break
+		}
+	}
+	verifrt.Assert(len(h.data) == len(served) && len(served) > 20*2048, "bytes.same-length")
+	if len(h.data) != len(served) {
+		return
+	}
+	diff := -1
+	for j := range served {
+		sec, in := j/2048, j%2048
+		if (sec == 16 || sec == 17) && in >= 813 && in < 881 {
+			continue
+		}
+		if h.data[j] != served[j] {
+			diff = j
+			break
+		}
+	}
+	verifrt.Assert(diff < 0, "bytes.equal-to-served-image")
+	_ = ref.Close()
+}
